@@ -6,11 +6,9 @@ import (
 	"github.com/tuneinsight/lattigo/v6/circuits/common/lintrans"
 	bgvlt "github.com/tuneinsight/lattigo/v6/circuits/bgv/lintrans"
 	ckkslt "github.com/tuneinsight/lattigo/v6/circuits/ckks/lintrans"
-	"github.com/tuneinsight/lattigo/v6/core/rlwe"
 
 	"verif/engine"
 	"verif/lib/circ"
-	"verif/uni"
 )
 
 // specialScenarios: index normalisation outside (-n,n), the empty diagonal set, and Permutation.GetDiagonals.
@@ -22,15 +20,31 @@ func specialScenarios(tier string) []engine.Scenario {
 		for _, ratio := range ratioCycle {
 			ratio := ratio
 			{
-				cfg := &scenarioCfg{sets: outOfRangeSets(tg.n), ratio: ratio, entries: []int{eEvaluateNew, eEvaluate, eMany2}, tag: "out-of-range"}
+				cfg := &scenarioCfg{sets: outOfRangeSets(tg.n), ratio: ratio, entries: []int{eEvaluateNew, eEvaluate, eMany2}, tag: "out-of-range-index"}
 				name := fmt.Sprintf("%s/out-of-range/ratio%d", tg.name, ratio)
 				scs = append(scs, engine.Scenario{Name: name, Bound: 1, Fn: func(c *engine.Chooser) { tg.leaf(c, name, cfg) }})
 			}
 			{
-				cfg := &scenarioCfg{sets: []diagSet{{"empty", nil}}, ratio: ratio, entries: []int{eEvaluateNew, eEvaluate}, tag: "empty"}
+				cfg := &scenarioCfg{sets: []diagSet{{"empty", nil}}, ratio: ratio, entries: []int{eEvaluateNew, eEvaluate}, tag: "empty-diagonal-set"}
 				name := fmt.Sprintf("%s/empty/ratio%d", tg.name, ratio)
 				scs = append(scs, engine.Scenario{Name: name, Bound: 1, Fn: func(c *engine.Chooser) { tg.leaf(c, name, cfg) }})
 			}
+		}
+	}
+	// dedicated scenarios of the known-defect input classes (see core.go: classNaiveOnlyZero, classManyAfterGiant)
+	for _, tg := range []target{tgs[0], tgs[2]} {
+		tg := tg
+		{
+			cfg := &scenarioCfg{sets: []diagSet{{"identity", []int{0}}}, ratio: -1, entries: []int{eEvaluateNew, eEvaluate, eMany1, eSeqNew2}, dedicated: true}
+			name := fmt.Sprintf("known-class/%s/naive-only-diagonal-0", tg.name)
+			scs = append(scs, engine.Scenario{Name: name, Bound: 1, Fn: func(c *engine.Chooser) { tg.leaf(c, name, cfg) }})
+		}
+		for _, ratio := range []int{0, 1} {
+			ratio := ratio
+			cfg := &scenarioCfg{sets: []diagSet{{"one", []int{-3}}, {"two", []int{1, 5}}, {"three", []int{0, 2, 5}}}, ratio: ratio,
+				entries: []int{eMany2, eMany3, eManyNew2}, dedicated: true}
+			name := fmt.Sprintf("known-class/%s/many-after-giant-step/ratio%d", tg.name, ratio)
+			scs = append(scs, engine.Scenario{Name: name, Bound: 0, Fn: func(c *engine.Chooser) { tg.leaf(c, name, cfg) }})
 		}
 	}
 	scs = append(scs, permScenarios(tier)...)
@@ -112,8 +126,6 @@ func allPerms(k int) []permCase {
 func permScenarios(tier string) []engine.Scenario {
 	var scs []engine.Scenario
 	bgvSpec := circ.BGVSpec{LogN: 4, NQ: 4, QBits: 30, NP: 2, PBits: 30, T: 97}
-	bgvSpec4 := circ.BGVSpec{LogN: 4, NQ: 4, QBits: 30, NP: 2, PBits: 30, T: 97}
-	_ = bgvSpec4
 	ckks8 := circ.CKKSSpec{LogN: 4, NQ: 4, Q0Bits: 50, QBits: 40, NP: 2, PBits: 50, LogScale: 40}
 	ckks4 := circ.CKKSSpec{LogN: 5, NQ: 5, Q0Bits: 45, QBits: 30, NP: 2, PBits: 46, LogScale: 30}
 	for _, ratio := range []int{-1, 0, 1} {
@@ -125,7 +137,7 @@ func permScenarios(tier string) []engine.Scenario {
 			scs = append(scs, engine.Scenario{Name: name, Bound: -1, Fn: func(c *engine.Chooser) {
 				pc := cases[c.ChooseFree(len(cases), "perm")]
 				c.Cover("perm", "all-of-4")
-				permLeafCKKS(c, name, getCKKS(c, ckks4), 2, pc, ratio)
+				permLeafCKKS(c, name, getCKKSAdapter(c, ckks4, 2), 2, pc, ratio)
 			}})
 		}
 		// CKKS, 8 slots: family
@@ -135,7 +147,7 @@ func permScenarios(tier string) []engine.Scenario {
 			scs = append(scs, engine.Scenario{Name: name, Bound: -1, Fn: func(c *engine.Chooser) {
 				pc := cases[c.ChooseFree(len(cases), "perm")]
 				c.Cover("perm", "family-8")
-				permLeafCKKS(c, name, getCKKS(c, ckks8), 3, pc, ratio)
+				permLeafCKKS(c, name, getCKKSAdapter(c, ckks8, 3), 3, pc, ratio)
 			}})
 		}
 		// BGV 2x8: family on row 0 × a different member on row 1
@@ -146,17 +158,15 @@ func permScenarios(tier string) []engine.Scenario {
 				i := c.ChooseFree(len(cases), "perm-row0")
 				j := (i*7 + 3) % len(cases) // row 1 gets another member of the family
 				c.Cover("perm", "family-8")
-				permLeafBGV(c, name, getBGV(c, bgvSpec), [2]permCase{cases[i], cases[j]}, ratio)
+				permLeafBGV(c, name, getBGVAdapter(c, bgvSpec), getBGV(c, bgvSpec), [2]permCase{cases[i], cases[j]}, ratio)
 			}})
 		}
 	}
 	return scs
 }
 
-func permLeafCKKS(c *engine.Chooser, scName string, w *circ.CKKS, logSlots int, pc permCase, ratio int) {
-	uni.Seed(c, scName, pc.name)
+func permLeafCKKS(c *engine.Chooser, scName string, a *adapter[complex128], logSlots int, pc permCase, ratio int) {
 	c.Note("ckks permutation %s to=%v ratio=%d", pc.name, pc.to, ratio)
-	a := ckksAdapter(w, logSlots)
 	n := a.n
 	v := a.input()
 	want := make([]complex128, n)
@@ -182,10 +192,8 @@ func permLeafCKKS(c *engine.Chooser, scName string, w *circ.CKKS, logSlots int, 
 	permEvaluate(c, a, "C12/ckks/Permutation", pc.name, map[int][]complex128(diags), v, want, ratio)
 }
 
-func permLeafBGV(c *engine.Chooser, scName string, w *circ.BGV, pcs [2]permCase, ratio int) {
-	uni.Seed(c, scName, pcs[0].name, pcs[1].name)
+func permLeafBGV(c *engine.Chooser, scName string, a *adapter[uint64], w *circ.BGV, pcs [2]permCase, ratio int) {
 	c.Note("bgv permutation row0=%s %v row1=%s %v ratio=%d", pcs[0].name, pcs[0].to, pcs[1].name, pcs[1].to, ratio)
-	a := bgvAdapter(w)
 	n := a.n
 	v := a.input()
 	want := make([]uint64, 2*n)
@@ -223,7 +231,7 @@ func permEvaluate[T any](c *engine.Chooser, a *adapter[T], sig, what string, dia
 	}
 	idx = sortedCopy(idx)
 	ctScale, ltScale := a.ctScale(false), a.ltScale(false)
-	ct := a.encrypt(v, a.maxLevel, ctScale)
+	ct := a.ciphertext(c, "input", v, a.maxLevel, false)
 	lp := lintrans.Parameters{DiagonalsIndexList: idx, LevelQ: a.maxLevel, LevelP: a.maxLvlP, Scale: ltScale,
 		LogDimensions: ct.LogDimensions, LogBabyStepGiantStepRatio: ratio}
 	lt, gals, err := a.newLT(c, lp, diags)
@@ -231,8 +239,7 @@ func permEvaluate[T any](c *engine.Chooser, a *adapter[T], sig, what string, dia
 		c.Fail(sig+"/Encode/error", "%s: %v", what, err)
 		return
 	}
-	gks := rlwe.NewKeyGenerator(a.params).GenGaloisKeysNew(gals, a.sk)
-	ev, _ := a.newEval(rlwe.NewMemEvaluationKeySet(nil, gks...))
+	ev, _ := a.newEval(a.galoisKeys(c, gals, -1, a.maxLvlP))
 	out, err := ev.EvaluateNew(ct, lt)
 	if err != nil {
 		c.Fail(sig+"/EvaluateNew/error", "%s: %v", what, err)
@@ -243,5 +250,5 @@ func permEvaluate[T any](c *engine.Chooser, a *adapter[T], sig, what string, dia
 		eps = a.ltErr(a.freshErr(ctScale), maxAbs(a.f, v), dmaxOf(a, diags), a.fromScale(ctScale), ltScale, a.maxLevel, a.maxLvlP, giantSteps(idx))
 	}
 	p := plan{describe: what, mats: []matrixPlan{{idx: idx, ratio: ratio, levelQ: a.maxLevel}}}
-	judge(c, a, sig+"/EvaluateNew", p, 0, out, a.maxLevel, a.mulScale(a.fromScale(ctScale), ltScale), want, eps)
+	judge(c, a, sig+"/EvaluateNew", "", false, p, 0, out, a.maxLevel, a.mulScale(a.fromScale(ctScale), ltScale), want, eps)
 }
